@@ -13,7 +13,7 @@ import walk_impl
 
 META = {
     'theorem_files': ['Props/C12.v'],
-    'theorems': ['C12_segment_delims_irrelevant', 'C12_line_breaks_irrelevant', 'C12_reader_independent_partial', 'C12_validation_delims_irrelevant', 'C12_validation_needs_simple_positions', 'C12_walker_delims_irrelevant'],
+    'theorems': ['C12_segment_delims_irrelevant', 'C12_line_breaks_irrelevant', 'C12_reader_independent_partial', 'C12_validation_delims_irrelevant', 'C12_validation_needs_simple_positions', 'C12_walker_delims_irrelevant', 'C12_pipeline_independent', 'C12_driver_independent_plain'],
     'trusted_base': [
         'Coq 8.16.1 kernel; no native_compute',
         'Model/Raw.v, Reader.v, Segment.v: hand transcription of rawx12file.py, x12file.py (reader), segment.py — tied by the '
